@@ -280,6 +280,11 @@ def rule_m2345(prog: Program, col: Collector) -> None:
         if okden:
             lp = [f for f in add[0].ctx if f[0] == "for"]
             okden = bool(lp) and lp[-1][3] == ("attr", c, "players") and add[0].value[2] == lp[-1][2]
+    if sv:
+        extra_guards = [f for f in sv[0].ctx if f[0] == "if" and not (is_call_to(f[1], "isinstance") and f[1][2][0] == dgp)]
+        col.check(not extra_guards, dref.where(sv[0].node), dref.short, "the restore runs for every table game (no early exit on the norm-info)",
+                  construct="denormalise-conditional",
+                  necessity="an additive game normalises to the zero game with scale 0: skipping the restore for scale 0 never re-adds the singleton values")
     col.check(okden, dref.where(), dref.short, "value = v(c) * scale, then + offset[i] for every member i of c, then stored back", construct="denormalise-order",
               necessity="adding before multiplying, or the wrong tuple position, does not restore the original values")
     gd = prog.func("normalize._denormalize_graph_game")
